@@ -1207,7 +1207,443 @@ theorem searchGo_congr {t t' : SymTab} (hg : ∀ i, t.symPtrValue i = t'.symPtrV
         · rfl
         · exact ih _
 
+/-- 32-bit word `i` of a hash section -/
+def wordAt (e : Enc) (hashB : Bytes) (i : Nat) : Nat := decodeInt e (slice hashB (4 * i) 4)
+
+theorem wordAt_lt (e : Enc) (hashB : Bytes) (i : Nat) : wordAt e hashB i < 4294967296 := by
+  have := decodeInt_slice_lt e hashB (4 * i) 4
+  unfold wordAt
+  simpa using this
+
+theorem rd32_eq {hs : SecBuf} {hashB : Bytes} (h : ReadsAs hs hashB) (site : String) (e : Enc) (i : Nat)
+    (hin : 4 * i + 4 ≤ hashB.length) :
+    rd32 site e (secData hs) (4 * i) = .ok (BitVec.ofNat 32 (wordAt e hashB i)) := by
+  unfold rd32
+  rw [h.rd _ _ _ (by omega) hin]
+  simp only [bind, Except.bind, pure, Except.pure]
+  rw [rdField_eq _ _ (by rw [slice_length_of_le hin]; simp)]
+  rfl
+
+theorem getSymbol_total {t : SymTab} {symB strB : Bytes} (h : Wf t symB strB) (i : BitVec 64) (str : Bytes) (a : Attrs) :
+    ∃ r, t.getSymbol i str a = .ok r := ⟨_, getSymbol_decoded h i str a⟩
+
+/-- a SysV hash section as the gABI lays it out (`nbucket`, `nchain`, buckets, chains) whose chains
+    lead to strictly smaller indices (what inserting symbols in index order produces) -/
+structure SysvWf (e : Enc) (hashB : Bytes) : Prop where
+  nb : 1 ≤ wordAt e hashB 0
+  len : hashB.length = 4 * (2 + wordAt e hashB 0 + wordAt e hashB 1)
+  small : 2 + wordAt e hashB 0 + wordAt e hashB 1 < 4294967296
+  desc : ∀ y, 1 ≤ y → y < wordAt e hashB 1 → wordAt e hashB (2 + wordAt e hashB 0 + y) < y
+
+theorem ofNat32_toNat {x : Nat} (h : x < 4294967296) : (BitVec.ofNat 32 x).toNat = x := by
+  simp only [BitVec.toNat_ofNat, Nat.reducePow]; omega
+
+theorem sysvLoop_total {t : SymTab} {symB strB hashB : Bytes} (h : Wf t symB strB) {hs : SecBuf}
+    (hr : ReadsAs hs hashB) (hw : SysvWf t.cfg.enc hashB) (name : Bytes) :
+    ∀ (fuel : Nat) (y : BitVec 32) (str : Bytes) (a : Attrs),
+      (y.toNat < wordAt t.cfg.enc hashB 1 → y.toNat < fuel) →
+      ∃ st, sysvLoop t (secData hs) name (BitVec.ofNat 32 (wordAt t.cfg.enc hashB 0))
+        (BitVec.ofNat 32 (wordAt t.cfg.enc hashB 1)) fuel y str a = .ok st := by
+  have hnb := wordAt_lt t.cfg.enc hashB 0
+  have hnc := wordAt_lt t.cfg.enc hashB 1
+  intro fuel
+  induction fuel with
+  | zero =>
+    intro y str a hf
+    rw [sysvLoop]
+    split
+    · rename_i hc
+      simp only [Bool.and_eq_true, sysv_walk_lt_nchain, BitVec.ult, decide_eq_true_eq, ofNat32_toNat hnc] at hc
+      have := hf hc.2; omega
+    · exact ⟨_, rfl⟩
+  | succ k ih =>
+    intro y str a hf
+    rw [sysvLoop]
+    split
+    · rename_i hc
+      simp only [Bool.and_eq_true, sysv_walk_lt_nchain, sysv_walk_not_undef, BitVec.ult, decide_eq_true_eq,
+        ofNat32_toNat hnc, bne_iff_ne, ne_eq] at hc
+      obtain ⟨⟨_, hy0⟩, hylt⟩ := hc
+      have hy1 : 1 ≤ y.toNat := by
+        rcases Nat.eq_zero_or_pos y.toNat with e0 | e0
+        · exfalso; apply hy0; apply BitVec.eq_of_toNat_eq; rw [e0]; rfl
+        · exact e0
+      have hoff : (sysv_chain_off (BitVec.ofNat 32 (wordAt t.cfg.enc hashB 0)) y).toNat
+          = 4 * (2 + wordAt t.cfg.enc hashB 0 + y.toNat) := by
+        have h2 : (2#32).toNat = 2 := rfl
+        have h4 : (4#64).toNat = 4 := rfl
+        have hsm := hw.small
+        simp only [sysv_chain_off, BitVec.toNat_mul, BitVec.toNat_setWidth, BitVec.toNat_add, ofNat32_toNat hnb,
+          h2, h4, Nat.reducePow]
+        omega
+      rw [hoff, rd32_eq hr _ _ _ (by rw [hw.len]; omega)]
+      simp only [bind, Except.bind]
+      obtain ⟨r, er⟩ := getSymbol_total h ((BitVec.ofNat 32 (wordAt t.cfg.enc hashB (2 + wordAt t.cfg.enc hashB 0 + y.toNat))).setWidth 64) str a
+      rw [er]
+      apply ih
+      intro _
+      rw [ofNat32_toNat (wordAt_lt _ _ _)]
+      have := hw.desc y.toNat hy1 hylt
+      have := hf hylt
+      omega
+    · exact ⟨_, rfl⟩
+
+/-- **the SysV walk over a well-formed table neither faults nor runs out of fuel** -/
+theorem hashLookup_total {t : SymTab} {symB strB hashB : Bytes} (h : Wf t symB strB) {hs : SecBuf}
+    (hr : ReadsAs hs hashB) (hw : SysvWf t.cfg.enc hashB) (name : Bytes) (a : Attrs) :
+    ∃ r, t.hashLookup hs name a = .ok r := by
+  have hnb := wordAt_lt t.cfg.enc hashB 0
+  have hnc := wordAt_lt t.cfg.enc hashB 1
+  have hl := hw.len
+  have hsm := hw.small
+  have hnb1 := hw.nb
+  unfold hashLookup
+  have e0 := rd32_eq hr "hash_lookup/nbucket" t.cfg.enc 0 (by omega)
+  have e1 := rd32_eq hr "hash_lookup/nchain" t.cfg.enc 1 (by omega)
+  simp only [Nat.mul_zero, Nat.mul_one] at e0 e1
+  have h4 : sysv_nchain_off.toNat = 4 := rfl
+  simp only [h4, e0, e1, bind, Except.bind]
+  have hnz : ¬ (BitVec.ofNat 32 (wordAt t.cfg.enc hashB 0) = 0) := by
+    intro e; have := congrArg BitVec.toNat e; rw [ofNat32_toNat hnb] at this; simp at this; omega
+  simp only [hnz, if_false]
+  have hmod : ∀ v : BitVec 32, (v % BitVec.ofNat 32 (wordAt t.cfg.enc hashB 0)).toNat < wordAt t.cfg.enc hashB 0 := by
+    intro v; rw [BitVec.toNat_umod, ofNat32_toNat hnb]; exact Nat.mod_lt _ (by omega)
+  have hoff : (sysv_bucket_off (elf_hash (cName name)) (BitVec.ofNat 32 (wordAt t.cfg.enc hashB 0))).toNat
+      = 4 * (2 + (elf_hash (cName name) % BitVec.ofNat 32 (wordAt t.cfg.enc hashB 0)).toNat) := by
+    have h2 : (2#32).toNat = 2 := rfl
+    have h4 : (4#64).toNat = 4 := rfl
+    have := hmod (elf_hash (cName name))
+    simp only [sysv_bucket_off, BitVec.toNat_mul, BitVec.toNat_setWidth, BitVec.toNat_add, h2, h4, Nat.reducePow]
+    omega
+  have := hmod (elf_hash (cName name))
+  rw [hoff, rd32_eq hr _ _ _ (by omega)]
+  simp only []
+  obtain ⟨r, er⟩ := getSymbol_total h ((BitVec.ofNat 32 (wordAt t.cfg.enc hashB (2 + (elf_hash (cName name) % BitVec.ofNat 32 (wordAt t.cfg.enc hashB 0)).toNat))).setWidth 64) [] a
+  rw [er]
+  simp only []
+  split
+  · exact ⟨_, rfl⟩
+  · obtain ⟨st, es⟩ := sysvLoop_total h hr hw name (wordAt t.cfg.enc hashB 1 + 1)
+      (BitVec.ofNat 32 (wordAt t.cfg.enc hashB (2 + (elf_hash (cName name) % BitVec.ofNat 32 (wordAt t.cfg.enc hashB 0)).toNat)))
+      r.2.1 r.2.2 (fun hlt => by omega)
+    rw [ofNat32_toNat hnc, es]
+    exact ⟨_, rfl⟩
+
+
+/-- 32-bit word at byte offset `off` of a hash section -/
+def hw32 (e : Enc) (hashB : Bytes) (off : Nat) : Nat := decodeInt e (slice hashB off 4)
+
+theorem hw32_lt (e : Enc) (hashB : Bytes) (off : Nat) : hw32 e hashB off < 4294967296 := by
+  have := decodeInt_slice_lt e hashB off 4
+  unfold hw32; simpa using this
+
+theorem rd32_at {hs : SecBuf} {hashB : Bytes} (h : ReadsAs hs hashB) (site : String) (e : Enc) (off : Nat)
+    (hin : off + 4 ≤ hashB.length) :
+    rd32 site e (secData hs) off = .ok (BitVec.ofNat 32 (hw32 e hashB off)) := by
+  unfold rd32
+  rw [h.rd _ _ _ (by omega) hin]
+  simp only [bind, Except.bind, pure, Except.pure]
+  rw [rdField_eq _ _ (by rw [slice_length_of_le hin]; simp)]
+  rfl
+
+theorem rd64_at {hs : SecBuf} {hashB : Bytes} (h : ReadsAs hs hashB) (site : String) (e : Enc) (off : Nat)
+    (hin : off + 8 ≤ hashB.length) :
+    ∃ v, rd64 site e (secData hs) off = .ok v := by
+  unfold rd64
+  rw [h.rd _ _ _ (by omega) hin]
+  exact ⟨_, rfl⟩
+
+/-- bloom word size of the class -/
+def bloomW (c : Cls) : Nat := match c with | .c32 => 4 | .c64 => 8
+
+/-- a GNU hash section laid out as the GNU description says (header, bloom words of the class
+    size, buckets, `nch` chain words), whose non-empty buckets point into the chain array and whose
+    chain array ends with a stop bit -/
+structure GnuWf (e : Enc) (c : Cls) (hashB : Bytes) (nch : Nat) : Prop where
+  bs1 : 1 ≤ hw32 e hashB 8
+  nb1 : 1 ≤ hw32 e hashB 0
+  len : hashB.length = 16 + hw32 e hashB 8 * bloomW c + hw32 e hashB 0 * 4 + 4 * nch
+  small : 16 + hw32 e hashB 8 * bloomW c + hw32 e hashB 0 * 4 + 4 * nch < 4294967296
+  buckets : ∀ b, b < hw32 e hashB 0 →
+    hw32 e hashB 4 ≤ hw32 e hashB (16 + hw32 e hashB 8 * bloomW c + 4 * b) →
+    hw32 e hashB (16 + hw32 e hashB 8 * bloomW c + 4 * b) - hw32 e hashB 4 < nch
+  stop : nch = 0 ∨ hw32 e hashB (16 + hw32 e hashB 8 * bloomW c + hw32 e hashB 0 * 4 + 4 * (nch - 1)) % 2 = 1
+
+theorem ofNat32_toNat' {x : Nat} (h : x < 4294967296) : (BitVec.ofNat 32 x).toNat = x := by
+  simp only [BitVec.toNat_ofNat, Nat.reducePow]; omega
+
+theorem chain_end_iff (t : SymTab) (ch : BitVec 32) :
+    (if t.c32 = true then gnu32_chain_end ch else gnu64_chain_end ch) = decide (ch.toNat % 2 = 1) := by
+  have h1 : (1#32).toNat = 1 := rfl
+  have key : ((ch &&& 1#32) != 0#32) = decide (ch.toNat % 2 = 1) := by
+    rw [Bool.eq_iff_iff]
+    simp only [bne_iff_ne, ne_eq, decide_eq_true_eq]
+    have hand : (ch &&& 1#32).toNat = ch.toNat % 2 := by
+      rw [BitVec.toNat_and, h1, Nat.and_one_is_mod]
+    constructor
+    · intro hne
+      rcases Nat.mod_two_eq_zero_or_one ch.toNat with h0 | h0
+      · exfalso; apply hne; apply BitVec.eq_of_toNat_eq; rw [hand, h0]; rfl
+      · exact h0
+    · intro h0 e
+      have := congrArg BitVec.toNat e
+      rw [hand, h0] at this
+      exact absurd this (by decide)
+  simp only [gnu32_chain_end, gnu64_chain_end, ite_self, key]
+
+theorem gnuLoop_total {t : SymTab} {symB strB hashB : Bytes} (h : Wf t symB strB) {hs : SecBuf}
+    (hr : ReadsAs hs hashB) {nch : Nat} (hw : GnuWf t.cfg.enc t.cfg.cls hashB nch) (name : Bytes)
+    (hash symoffset : BitVec 32) :
+    ∀ (fuel : Nat) (ci ch : BitVec 32) (sn : Bytes) (a : Attrs),
+      ci.toNat < nch →
+      ch = BitVec.ofNat 32 (hw32 t.cfg.enc hashB
+        (16 + hw32 t.cfg.enc hashB 8 * bloomW t.cfg.cls + hw32 t.cfg.enc hashB 0 * 4 + 4 * ci.toNat)) →
+      nch - ci.toNat ≤ fuel →
+      ∃ r, gnuLoop t (secData hs) name hash symoffset
+        (16 + hw32 t.cfg.enc hashB 8 * bloomW t.cfg.cls + hw32 t.cfg.enc hashB 0 * 4) fuel ci ch sn a = .ok r := by
+  have hsm := hw.small
+  have hl := hw.len
+  intro fuel
+  induction fuel with
+  | zero => intro ci ch sn a h1 _ h3; omega
+  | succ k ih =>
+    intro ci ch sn a h1 h2 h3
+    rw [gnuLoop]
+    generalize (if t.c32 = true then gnu32_hash_match ch hash else gnu64_hash_match ch hash) = hm
+    have hget : ∃ r, (if hm = true then t.getSymbol (if t.c32 = true then gnu32_sym_index ci symoffset
+        else gnu64_sym_index ci symoffset) sn a else pure (false, sn, a)) = .ok r := by
+      cases hm
+      · exact ⟨_, rfl⟩
+      · simp only [if_true]; exact getSymbol_total h _ _ _
+    obtain ⟨r, er⟩ := hget
+    rw [er]
+    simp only [bind, Except.bind]
+    split
+    · exact ⟨_, rfl⟩
+    · rw [chain_end_iff]
+      by_cases hodd : ch.toNat % 2 = 1
+      · simp only [hodd, decide_true, if_true]; exact ⟨_, rfl⟩
+      · simp only [hodd, decide_false, Bool.false_eq_true, if_false]
+        have hlast : ci.toNat ≠ nch - 1 := by
+          intro e
+          rcases hw.stop with h0 | h0
+          · omega
+          · rw [← e] at h0
+            rw [h2, ofNat32_toNat' (hw32_lt _ _ _)] at hodd
+            exact hodd h0
+        have h1' : (1 : BitVec 32).toNat = 1 := rfl
+        have hci : (ci + 1).toNat = ci.toNat + 1 := by
+          rw [BitVec.toNat_add, h1']; simp only [Nat.reducePow]; omega
+        rw [hci]
+        have hoff : 16 + hw32 t.cfg.enc hashB 8 * bloomW t.cfg.cls + hw32 t.cfg.enc hashB 0 * 4 + (ci.toNat + 1) * 4
+            = 16 + hw32 t.cfg.enc hashB 8 * bloomW t.cfg.cls + hw32 t.cfg.enc hashB 0 * 4 + 4 * (ci.toNat + 1) := by omega
+        rw [hoff, rd32_at hr _ _ _ (by omega)]
+        simp only []
+        apply ih
+        · rw [hci]; omega
+        · rw [hci]
+        · rw [hci]; omega
+
+
+theorem bloom_off_eq : gnu32_bloom_off.toNat = 16 ∧ gnu64_bloom_off.toNat = 16 := by
+  have h4 : (BitVec.signExtend 64 4#32).toNat = 4 := by
+    simp only [BitVec.signExtend, BitVec.toInt, BitVec.toNat_ofNat, Nat.reducePow, Nat.reduceMod]
+    simp
+  have h44 : (4#64).toNat = 4 := rfl
+  constructor <;>
+  · simp only [gnu32_bloom_off, gnu64_bloom_off, BitVec.toNat_mul, h4, h44, Nat.reducePow]
+
+/-- **the GNU walk over a well-formed table neither faults nor runs out of fuel** -/
+theorem gnuLookup_total {t : SymTab} {symB strB hashB : Bytes} (h : Wf t symB strB) {hs : SecBuf}
+    (hr : ReadsAs hs hashB) {nch : Nat} (hw : GnuWf t.cfg.enc t.cfg.cls hashB nch) (name : Bytes) (a : Attrs) :
+    ∃ r, t.gnuLookup hs name a = .ok r := by
+  have hsm := hw.small
+  have hl := hw.len
+  have hbs1 := hw.bs1
+  have hnb1 := hw.nb1
+  have hW : bloomW t.cfg.cls = 4 ∨ bloomW t.cfg.cls = 8 := by cases t.cfg.cls <;> simp [bloomW]
+  have hnbk := hw32_lt t.cfg.enc hashB 0
+  have hbs := hw32_lt t.cfg.enc hashB 8
+  have hso := hw32_lt t.cfg.enc hashB 4
+  have hmul : hw32 t.cfg.enc hashB 8 * bloomW t.cfg.cls ≥ hw32 t.cfg.enc hashB 8 := by
+    rcases hW with e | e <;> rw [e] <;> omega
+  unfold gnuLookup
+  simp only [rd32_at hr _ _ 0 (by omega), rd32_at hr _ _ 4 (by omega), rd32_at hr _ _ 8 (by omega),
+    rd32_at hr _ _ 12 (by omega), bind, Except.bind]
+  have hbz : ¬ (BitVec.ofNat 32 (hw32 t.cfg.enc hashB 8) = 0) := by
+    intro e; have := congrArg BitVec.toNat e; rw [ofNat32_toNat' hbs] at this; simp at this; omega
+  have hnz : ¬ (BitVec.ofNat 32 (hw32 t.cfg.enc hashB 0) = 0) := by
+    intro e; have := congrArg BitVec.toNat e; rw [ofNat32_toNat' hnbk] at this; simp at this; omega
+  have hbo : (if t.c32 = true then gnu32_bloom_off else gnu64_bloom_off).toNat = 16 := by
+    cases t.c32 <;> simp [bloom_off_eq.1, bloom_off_eq.2]
+  simp only [hbz, hnz, if_false, hbo]
+  -- the bloom word is inside the section
+  have h8 : (BitVec.signExtend 64 8#32).toNat = 8 := by
+    simp only [BitVec.signExtend, BitVec.toInt, BitVec.toNat_ofNat, Nat.reducePow, Nat.reduceMod]
+    simp
+  have hpass : ∃ pass, (if t.c32 = true then
+        (rd32 "gnu_hash_lookup/bloom" t.cfg.enc (secData hs)
+          (16 + (gnu32_bloom_index (elf_gnu_hash (cName name)) (BitVec.ofNat 32 (hw32 t.cfg.enc hashB 8))).toNat * 4)) >>= fun w =>
+          pure ((w &&& gnu32_bloom_bits (elf_gnu_hash (cName name)) (BitVec.ofNat 32 (hw32 t.cfg.enc hashB 12)))
+            == gnu32_bloom_bits (elf_gnu_hash (cName name)) (BitVec.ofNat 32 (hw32 t.cfg.enc hashB 12)))
+      else
+        (rd64 "gnu_hash_lookup/bloom" t.cfg.enc (secData hs)
+          (16 + (gnu64_bloom_index (elf_gnu_hash (cName name)) (BitVec.ofNat 32 (hw32 t.cfg.enc hashB 8))).toNat * 8)) >>= fun w =>
+          pure ((w &&& gnu64_bloom_bits (elf_gnu_hash (cName name)) (BitVec.ofNat 32 (hw32 t.cfg.enc hashB 12)))
+            == gnu64_bloom_bits (elf_gnu_hash (cName name)) (BitVec.ofNat 32 (hw32 t.cfg.enc hashB 12)))) = (.ok pass : M Bool) := by
+    unfold c32
+    cases hc : t.cfg.cls
+    · simp only [beq_self_eq_true, if_true]
+      have hidx : (gnu32_bloom_index (elf_gnu_hash (cName name)) (BitVec.ofNat 32 (hw32 t.cfg.enc hashB 8))).toNat
+          < hw32 t.cfg.enc hashB 8 := by
+        simp only [gnu32_bloom_index, BitVec.toNat_setWidth, BitVec.toNat_umod, ofNat32_toNat' hbs, Nat.reducePow]
+        have : ((BitVec.setWidth 64 (elf_gnu_hash (cName name))) / (BitVec.signExtend 64 8#32 * 4#64)).toNat % (hw32 t.cfg.enc hashB 8 % 18446744073709551616)
+            < hw32 t.cfg.enc hashB 8 := by
+          rw [Nat.mod_eq_of_lt (a := hw32 t.cfg.enc hashB 8) (by omega)]
+          exact Nat.mod_lt _ (by omega)
+        omega
+      rw [hc] at hl; simp only [bloomW] at hl
+      rw [rd32_at hr _ _ _ (by omega)]
+      exact ⟨_, rfl⟩
+    · simp only [show (Cls.c64 == Cls.c32) = false from rfl, Bool.false_eq_true, if_false]
+      have hidx : (gnu64_bloom_index (elf_gnu_hash (cName name)) (BitVec.ofNat 32 (hw32 t.cfg.enc hashB 8))).toNat
+          < hw32 t.cfg.enc hashB 8 := by
+        simp only [gnu64_bloom_index, BitVec.toNat_setWidth, BitVec.toNat_umod, ofNat32_toNat' hbs, Nat.reducePow]
+        have : ((BitVec.setWidth 64 (elf_gnu_hash (cName name))) / (BitVec.signExtend 64 8#32 * 8#64)).toNat % (hw32 t.cfg.enc hashB 8 % 18446744073709551616)
+            < hw32 t.cfg.enc hashB 8 := by
+          rw [Nat.mod_eq_of_lt (a := hw32 t.cfg.enc hashB 8) (by omega)]
+          exact Nat.mod_lt _ (by omega)
+        omega
+      rw [hc] at hl; simp only [bloomW] at hl
+      obtain ⟨v, ev⟩ := rd64_at hr "gnu_hash_lookup/bloom" t.cfg.enc
+        (16 + (gnu64_bloom_index (elf_gnu_hash (cName name)) (BitVec.ofNat 32 (hw32 t.cfg.enc hashB 8))).toNat * 8) (by omega)
+      rw [ev]
+      exact ⟨_, rfl⟩
+  obtain ⟨pass, ep⟩ := hpass
+  simp only [bind, Except.bind] at ep
+  rw [ep]
+  simp only []
+  cases pass
+  · exact ⟨_, rfl⟩
+  simp only [Bool.not_true, Bool.false_eq_true, if_false]
+  -- offsets of the bucket and chain arrays
+  have hboff : (if t.c32 = true then gnu32_buckets_off (BitVec.ofNat 32 (hw32 t.cfg.enc hashB 8))
+      else gnu64_buckets_off (BitVec.ofNat 32 (hw32 t.cfg.enc hashB 8))).toNat = hw32 t.cfg.enc hashB 8 * bloomW t.cfg.cls := by
+    have h44 : (4#64).toNat = 4 := rfl
+    have h88 : (8#64).toNat = 8 := rfl
+    unfold c32
+    cases t.cfg.cls <;>
+      simp only [beq_self_eq_true, if_true, show (Cls.c64 == Cls.c32) = false from rfl, Bool.false_eq_true, if_false,
+        gnu32_buckets_off, gnu64_buckets_off, BitVec.toNat_mul, BitVec.toNat_setWidth, ofNat32_toNat' hbs, h44, h88,
+        bloomW, Nat.reducePow] <;> omega
+  have hcoff : (if t.c32 = true then gnu32_chains_off (BitVec.ofNat 32 (hw32 t.cfg.enc hashB 0))
+      else gnu64_chains_off (BitVec.ofNat 32 (hw32 t.cfg.enc hashB 0))).toNat = hw32 t.cfg.enc hashB 0 * 4 := by
+    have h44 : (4#64).toNat = 4 := rfl
+    simp only [gnu32_chains_off, gnu64_chains_off, ite_self, BitVec.toNat_mul, BitVec.toNat_setWidth,
+      ofNat32_toNat' hnbk, h44, Nat.reducePow]
+    omega
+  have hbk : (if t.c32 = true then gnu32_bucket (elf_gnu_hash (cName name)) (BitVec.ofNat 32 (hw32 t.cfg.enc hashB 0))
+      else gnu64_bucket (elf_gnu_hash (cName name)) (BitVec.ofNat 32 (hw32 t.cfg.enc hashB 0))).toNat < hw32 t.cfg.enc hashB 0 := by
+    simp only [gnu32_bucket, gnu64_bucket, ite_self, BitVec.toNat_umod, ofNat32_toNat' hnbk]
+    exact Nat.mod_lt _ (by omega)
+  rw [hboff, hcoff]
+  generalize (if t.c32 = true then gnu32_bucket (elf_gnu_hash (cName name)) (BitVec.ofNat 32 (hw32 t.cfg.enc hashB 0))
+      else gnu64_bucket (elf_gnu_hash (cName name)) (BitVec.ofNat 32 (hw32 t.cfg.enc hashB 0))) = bucket at hbk ⊢
+  have hoffb : 16 + hw32 t.cfg.enc hashB 8 * bloomW t.cfg.cls + bucket.toNat * 4
+      = 16 + hw32 t.cfg.enc hashB 8 * bloomW t.cfg.cls + 4 * bucket.toNat := by omega
+  rw [hoffb, rd32_at hr _ _ _ (by omega)]
+  simp only []
+  split
+  · rename_i hge
+    have hbv := hw32_lt t.cfg.enc hashB (16 + hw32 t.cfg.enc hashB 8 * bloomW t.cfg.cls + 4 * bucket.toNat)
+    simp only [BitVec.ule, ofNat32_toNat' hso, ofNat32_toNat' hbv, decide_eq_true_eq] at hge
+    have hci := hw.buckets bucket.toNat hbk hge
+    have hcin : (BitVec.ofNat 32 (hw32 t.cfg.enc hashB (16 + hw32 t.cfg.enc hashB 8 * bloomW t.cfg.cls + 4 * bucket.toNat))
+        - BitVec.ofNat 32 (hw32 t.cfg.enc hashB 4)).toNat
+        = hw32 t.cfg.enc hashB (16 + hw32 t.cfg.enc hashB 8 * bloomW t.cfg.cls + 4 * bucket.toNat) - hw32 t.cfg.enc hashB 4 := by
+      rw [BitVec.toNat_sub, ofNat32_toNat' hso, ofNat32_toNat' hbv]
+      simp only [Nat.reducePow]
+      omega
+    have hoffc : 16 + hw32 t.cfg.enc hashB 8 * bloomW t.cfg.cls + hw32 t.cfg.enc hashB 0 * 4 +
+        (BitVec.ofNat 32 (hw32 t.cfg.enc hashB (16 + hw32 t.cfg.enc hashB 8 * bloomW t.cfg.cls + 4 * bucket.toNat))
+          - BitVec.ofNat 32 (hw32 t.cfg.enc hashB 4)).toNat * 4
+        = 16 + hw32 t.cfg.enc hashB 8 * bloomW t.cfg.cls + hw32 t.cfg.enc hashB 0 * 4 + 4 *
+        (BitVec.ofNat 32 (hw32 t.cfg.enc hashB (16 + hw32 t.cfg.enc hashB 8 * bloomW t.cfg.cls + 4 * bucket.toNat))
+          - BitVec.ofNat 32 (hw32 t.cfg.enc hashB 4)).toNat := by omega
+    rw [hoffc, rd32_at hr _ _ _ (by rw [hcin]; omega)]
+    simp only []
+    apply gnuLoop_total h hr hw
+    · rw [hcin]; exact hci
+    · rfl
+    · -- fuel: the allocation is at least as long as the section
+      have hd := hr.data
+      cases hsd : secData hs with
+      | none => rw [hsd] at hd; simp only at hd; rw [hd] at hl; simp at hl; omega
+      | some b => rw [hsd] at hd; simp only at hd; simp only [Option.getD_some]; omega
+  · exact ⟨_, rfl⟩
+
+
+
+theorem linearGo_total {t : SymTab} {symB strB : Bytes} (h : Wf t symB strB) (name : Bytes) :
+    ∀ (k : Nat) (i : BitVec 64) (a : Attrs), ∃ r, t.linearGo name k i a = .ok r := by
+  intro k
+  induction k with
+  | zero => intro i a; exact ⟨_, rfl⟩
+  | succ k ih =>
+    intro i a
+    rw [linearGo]
+    obtain ⟨r, er⟩ := getSymbol_total h i [] a
+    rw [er]
+    simp only [bind, Except.bind]
+    split
+    · exact ⟨_, rfl⟩
+    · exact ih _ _
+
+/-- once the hash phase returns, `get_symbol(name, …)` returns -/
+theorem getByName_total {t : SymTab} {symB strB : Bytes} (h : Wf t symB strB) (name : Bytes) (a : Attrs)
+    (hp : ∃ r1, t.hashPhase name a = .ok r1) : ∃ r, t.getByName name a = .ok r := by
+  obtain ⟨r1, e1⟩ := hp
+  unfold getByName
+  rw [e1]
+  simp only [bind, Except.bind]
+  split
+  · exact ⟨_, rfl⟩
+  · rw [symbolsNum_eq h]
+    exact linearGo_total h name _ _ _
+
+/-- the hash section that accompanies the table is absent, or a well-formed SysV table, or a
+    well-formed GNU table (decidable conditions on its bytes, see `SysvWf` / `GnuWf`) -/
+inductive HashOk (t : SymTab) : Prop
+  | none : t.hash = none → HashOk t
+  | sysv (hs : SecBuf) (hashB : Bytes) : t.hash = some hs → ReadsAs hs hashB →
+      hs.stype = BitVec.ofNat 32 SHT_HASH → SysvWf t.cfg.enc hashB → HashOk t
+  | gnu (hs : SecBuf) (hashB : Bytes) (nch : Nat) : t.hash = some hs → ReadsAs hs hashB →
+      (hs.stype = BitVec.ofNat 32 SHT_GNU_HASH ∨ hs.stype = BitVec.ofNat 32 DT_GNU_HASH) →
+      GnuWf t.cfg.enc t.cfg.cls hashB nch → HashOk t
+
+theorem hashPhase_total {t : SymTab} {symB strB : Bytes} (h : Wf t symB strB) (hk : HashOk t) (name : Bytes)
+    (a : Attrs) : ∃ r1, t.hashPhase name a = .ok r1 := by
+  unfold hashPhase
+  cases hk with
+  | none e => rw [e]; exact ⟨_, rfl⟩
+  | sysv hs hashB e hr hty hw =>
+    rw [e]
+    simp only [hty, beq_self_eq_true, if_true]
+    obtain ⟨r, er⟩ := hashLookup_total h hr hw name a
+    rw [er]
+    have h1 : (BitVec.ofNat 32 SHT_HASH == BitVec.ofNat 32 SHT_GNU_HASH) = false := by decide
+    have h2 : (BitVec.ofNat 32 SHT_HASH == BitVec.ofNat 32 DT_GNU_HASH) = false := by decide
+    simp only [bind, Except.bind, h1, h2, Bool.or_self, Bool.false_eq_true, if_false]
+    exact ⟨_, rfl⟩
+  | gnu hs hashB nch e hr hty hw =>
+    rw [e]
+    have hg : (hs.stype == BitVec.ofNat 32 SHT_GNU_HASH || hs.stype == BitVec.ofNat 32 DT_GNU_HASH) = true := by
+      rcases hty with e1 | e1 <;> simp [e1]
+    have hn : (hs.stype == BitVec.ofNat 32 SHT_HASH) = false := by
+      rcases hty with e1 | e1 <;> rw [e1] <;> decide
+    simp only [hn, Bool.false_eq_true, if_false, hg, if_true, bind, Except.bind, pure, Except.pure]
+    exact gnuLookup_total h hr hw name _
+
+
 end SymTab
-
-
 end ElfioVerif
